@@ -55,7 +55,7 @@ pub fn generic_payoffs(t: &mut Tree, rng: &mut Rng) {
 pub fn corpus(seed: u64, n: u64) -> Vec<(String, Tree)> {
     let mut games: Vec<(String, Tree)> = zoo::all()
         .into_iter()
-        .filter(|(name, _)| ["kuhn", "shared16", "shared8", "chain8", "rare", "dominated", "coins"].contains(&name.as_str()))
+        .filter(|(name, _)| ["kuhn", "shared16", "shared8", "chain8", "rare", "dominated", "coins", "liars"].contains(&name.as_str()))
         .collect();
     games.push(("contended5".to_string(), zoo::contended(5)));
     let mut rng = Rng::new(seed ^ 0x9a7);
